@@ -226,6 +226,20 @@ def case_sphere_lattice(case):
     if P.shape != (n, n, 2) or S2.shape != S.shape or S3.shape != S.shape:
         add(v, "point/shape/sphere-lattice", "shapes %r %r %r" % (P.shape, S2.shape, S3.shape))
         return {"v": v, "t": 3, "o": "shape", "nt": True}
+    # column layout: coordinates along axis -2, points along axis -1 (one row of the lattice at a time and all at once)
+    for nm, rows in (("row-0", S[0]), ("row-mid", S[n // 2]), ("all", S)):
+        try:
+            Pc = np.asarray(spherical_to_projective(np.swapaxes(rows, -1, -2).copy(), column_vectors=True))
+            Sc = np.asarray(projective_to_spherical(np.swapaxes(np.asarray(spherical_to_projective(rows)), -1, -2).copy(), column_vectors=True))
+        except NameError as e:
+            add(v, "point/column-layout/raises", "column_vectors=True (%s): %s: %s" % (nm, type(e).__name__, e))
+            break
+        want_P = np.swapaxes(np.asarray(spherical_to_projective(rows)), -1, -2)
+        want_S = np.swapaxes(rows, -1, -2)
+        if Pc.shape != want_P.shape or Sc.shape != want_S.shape:
+            add(v, "point/column-layout/shape", "column_vectors=True (%s): shapes %r %r, expected %r %r" % (nm, Pc.shape, Sc.shape, want_P.shape, want_S.shape))
+        elif not (np.allclose(Pc, want_P, atol=TOL, rtol=0, equal_nan=False) and np.max(np.abs(Sc - want_S)) <= TOL):
+            add(v, "point/column-layout/value", "column_vectors=True (%s) differs from the transposed row-layout answer" % nm)
     nbad = 0
     for i in range(n):
         for j in range(n):
